@@ -20,14 +20,16 @@
 EXTENDS Naturals, Sequences, FiniteSets, TLC
 
 Kinds == {"int", "intList", "tokens", "tokenLists", "model", "modelList", "modelUnion", "anyType", "wildcardList",
-          "attributes", "primUnion", "compound", "enum", "nillableInt", "requiredInt", "attrInt", "wildcardOne", "qname"}
+          "attributes", "primUnion", "compound", "enum", "nillableInt", "requiredInt", "attrInt", "wildcardOne", "qname",
+          "modelAndWildcard"}       \* x is a typed complex child, NEXT TO a (non-mixed) wildcard field of the same class
 
 Shapes == {"absent", "empty", "ws", "int", "str", "enumStr", "ints", "twice", "nil", "nilText", "nilBad", "leaf", "leafTwice",
            "unknownChild", "mixed", "xsiInt", "xsiUnknown", "xsiUnbound", "xsiLeaf", "attrs", "parentAttr", "parentAttrBad",
            "parentAttrs", "deep", "cdata", "comment", "otherNs", "compoundN", "sibling",
            "known", "knownTwice", "knownThenX",     \* content that binds to a class the context knows by its qualified name
            "mixedTokens",                           \* a token list with one unconvertible token: <x>1 a 3</x>
-           "clarkBroken", "xsiClarkBroken", "clark"} \* names in {uri}local notation, whole and cut short (text and xsi:type)
+           "clarkBroken", "xsiClarkBroken", "clark",
+           "leafThenText", "textLeafText"}           \* character data after / around a complex child (only mixed content can hold it) \* names in {uri}local notation, whole and cut short (text and xsi:type)
 
 Positions == {"root", "nested", "repeated"}
 
@@ -52,6 +54,7 @@ Canonical(k, s) ==
     [] k = "enum"         -> s \in {"absent", "enumStr"}
     [] k = "attrInt"      -> s \in {"absent", "parentAttr"}
     [] k = "qname"        -> s \in {"absent", "str", "enumStr"}
+    [] k = "modelAndWildcard" -> s \in {"absent", "empty", "leaf"}
 
 \* a shape that adds, next to canonical content `int`, something NO content model of the universe knows:
 \* an element <zz> beside x (sibling).  Kinds that absorb anything (wildcards) are exempt.
